@@ -38,12 +38,18 @@ Proof.
     try (vm_compute; reflexivity); vm_compute; discriminate.
 Qed.
 
-(** The ETH part of [store_clean] in C18_valid_update_succeeds ("every consensus state has its root-main
-    entry"; replayed: corpus "eth-foreign-root-prune").  The code accepts an ETH proposal whose consensus state
-    carries another root than the proposed header (nothing ties the two together) and indexes the HEADER's root.
-    When that consensus state has outlived the trusting period while the client is still Active, the pruning step
-    of the next update looks the header up by the CONSENSUS STATE's root, does not find it and fails: a valid
-    header from the authorised relayer is refused.  With the header's own root the same history succeeds. *)
+(** The ETH root check (aa5560b, repaired).  [pre_root_cfg] is the code of HEAD without that repair.  There, an ETH
+    proposal whose consensus state carries another root than the proposed header was accepted (nothing tied the two
+    together) and the HEADER's root was indexed.  When that consensus state had outlived the trusting period while the
+    client was still Active, the pruning step of the next update looked the header up by the CONSENSUS STATE's root,
+    did not find it and failed: a valid header from the authorised relayer was refused, and so was every later one.
+    On HEAD the proposal is refused and nothing changes (replayed: corpus "eth-foreign-root-prune"; seeded
+    C18-revert-fix-eth-root); with the header's own root the same history succeeds on both variants. *)
+Definition pre_root_cfg : cfg :=
+  {| f_toggle_new := true; f_tss_height := true; f_upgrade_tss_nocons := true; f_tm_upgrade_meta := true;
+     f_toggle_clear := true; f_cons_type_check := true;
+     f_eth_root_check := false; f_eth_rev_check := true; f_eth_old_header := true |}.
+
 Definition eth_history (root : bytes) : list op :=
   [ Register rel [name] true;
     Create (prop ethc (ethk root));
@@ -52,17 +58,24 @@ Definition eth_history (root : bytes) : list op :=
 Definition eth_update102 : op := Update name (HEvm ETH (ehd 102 (B "e102") (B "e101") 926) true) rel true.
 
 Theorem C18_eth_foreign_root_refuted :
-  let st := run head_cfg (empty_state t0) (eth_history (B "other")) in
+  let st := run pre_root_cfg (empty_state t0) (eth_history (B "other")) in
   (exists c, sget KClient (store_of st name) = Some (VClient c) /\ status (now st) c (store_of st name) = 0%nat) /\
-    step head_cfg st eth_update102 = (1%nat, st) /\
-    fst (step head_cfg (run head_cfg (empty_state t0) (eth_history (B "root"))) eth_update102) = 0%nat.
+  step pre_root_cfg st eth_update102 = (1%nat, st) /\
+  fst (step pre_root_cfg (run pre_root_cfg (empty_state t0) (eth_history (B "root"))) eth_update102) = 0%nat.
 Proof.
   cbv zeta. split.
   - eexists. split; [vm_compute; reflexivity|]. vm_compute. reflexivity.
   - split; vm_compute; reflexivity.
 Qed.
 
-(** The revision clause of [op_eth_ok] in C18_valid_update_succeeds_reachable.  The ETH root-main keys are
+(** HEAD: the inconsistent proposal is refused, nothing changes; the consistent history still succeeds. *)
+Theorem C18_eth_foreign_root_refused_on_head :
+  let st := run head_cfg (empty_state t0) [Register rel [name] true] in
+  step head_cfg st (Create (prop ethc (ethk (B "other")))) = (1%nat, st) /\
+  fst (step head_cfg (run head_cfg (empty_state t0) (eth_history (B "root"))) eth_update102) = 0%nat.
+Proof. cbv zeta. split; vm_compute; reflexivity. Qed.
+
+(** [op_eth_ok] (ETH proposals use revision 0) in C18_valid_update_succeeds_reachable — still true of HEAD.  The ETH root-main keys are
     (state root, revision HEIGHT): they ignore the revision number.  An upgrade that re-installs the same block under
     another revision number (consistent content: the consensus state carries its header's root) makes two consensus
     states share one root-main entry; pruning the first deletes the entry (and the header index of the OTHER
